@@ -108,9 +108,16 @@ func c08Exec(r *Run) {
 	if r.Tier == "thorough" {
 		n = 5
 	}
+	std := n
+	if r.NoKnown {
+		// replay / minimisation: Go's per-range map iteration order is the one schedule source
+		// the PRNG cannot dictate, so a replay samples it with additional plain replicas (a
+		// two-way order dependence is missed by all of them with probability 2^-12)
+		n += 12
+	}
 	for i := 0; i < n; i++ {
-		o := ReplicaOpts{Name: fmt.Sprintf("replica%d", i), CheckTxNoise: i%2 == 1}
-		if i >= 1 && nb > 2 {
+		o := ReplicaOpts{Name: fmt.Sprintf("replica%d", i), CheckTxNoise: i%2 == 1 && i < std}
+		if i >= 1 && i < std && nb > 2 {
 			o.RestartAfter = map[int64]bool{1 + p.Int63n(nb-1): true, 1 + p.Int63n(nb-1): true}
 			st.Restarts += 2
 			r.Fault("replica_restart")
@@ -146,6 +153,14 @@ func c08Plan(p *PRNG, cfg Config, tier string) Plan {
 		o.MinBlocks, o.MaxBlocks = 40, 120
 	}
 	plan := GenLedgerPlan(p, cfg, o)
+	if p.Chance(1, 3) {
+		// AVS-paced history: the AVS epoch ends every 1-4 blocks, several task groups end together
+		ao := AVSGenOpts{}
+		if tier == "thorough" {
+			ao.MinBlocks, ao.MaxBlocks = 40, 120
+		}
+		plan = GenAVSPlan(p, cfg, ao)
+	}
 	// oracle traffic from several validators on several feeders
 	op := GenOraclePlan(NewPRNG(p.Uint64()), cfg, OracleGenOpts{MinBlocks: len(plan.Blocks), MaxBlocks: len(plan.Blocks), Hostile: p.Chance(1, 2)})
 	for i := range plan.Blocks {
